@@ -1,0 +1,30 @@
+//go:build verif
+
+package proxy
+
+import "sync"
+
+// Verification hook (build tag "verif" only): named yield points inside proxy
+// code at which an external harness can interleave another operation exactly
+// there (e.g. remove a cache entry between singleflight's return and the
+// follower's own cache lookup). Nothing here is compiled into a normal build.
+var (
+	verifYieldMu sync.Mutex
+	verifYieldFn func(point string)
+)
+
+// VerifSetYield installs (or with nil removes) the function called at every yield point.
+func VerifSetYield(fn func(point string)) {
+	verifYieldMu.Lock()
+	verifYieldFn = fn
+	verifYieldMu.Unlock()
+}
+
+func verifYield(point string) {
+	verifYieldMu.Lock()
+	fn := verifYieldFn
+	verifYieldMu.Unlock()
+	if fn != nil {
+		fn(point)
+	}
+}
